@@ -1127,6 +1127,14 @@ class Engine:
             return S.vbool(S.set_eq(self.to_set(E(0)), self.to_set(E(1))))
         if name == 'reach1':
             return self.reach1(ev, node, path, spec)
+        if name in ('block_name', 'region_name', 'var_name'):
+            kind, idx = E(0), E(1)
+            cat = lambda a, b: S.concat_f(a, b)
+            if name == 'var_name':
+                t = cat(cat(cat(cat(S.name_lit('__scfg_').t, kind.t), S.name_lit('_var_').t), S.str_of_int(idx.t)), S.name_lit('__').t)
+            else:
+                t = cat(cat(kind.t, S.name_lit('_block_' if name == 'block_name' else '_region_').t), S.str_of_int(idx.t))
+            return V(T_NAME, t)
         if name == 'rind':
             return self.rind(ev, node, path, spec)
         if name == 'without':
